@@ -15,12 +15,16 @@ def edit_oracle(L, pre, post, op, n_opt, cx, cy, cols, lines):
     """Single ICH/DCH step on the observable grid: -> z3 Bool."""
     is_some, n = opt_parts(n_opt)
     nv = n.v if type(n) is Int else n
+    if nv is None:
+        nv = 0
     if isinstance(nv, int):
         nv = z3.BitVecVal(nv, 32)
     B = lambda v: z3.BitVecVal(v, 32)
     cnt = z3.If(z3.And(to_z3bool(is_some), nv != 0), nv, B(1))
     d = default_cell(L, post)
     ok = True
+    cs = z3.simplify(cnt)
+    kc = cs.as_long() if z3.is_bv_value(cs) else None
     for y in range(lines):
         for x in range(cols):
             post_alts = cell_alts(L, post, y, x)
@@ -29,7 +33,12 @@ def edit_oracle(L, pre, post, op, n_opt, cx, cy, cols, lines):
                 continue
             blank = to_z3bool(alts_is(post_alts, d))
             exp = blank
-            if op == 'insert_characters':
+            if kc is not None:
+                # concrete count: the one source cell (or a blank)
+                src = x - kc if op == 'insert_characters' else x + kc
+                if (op == 'insert_characters' and src >= cx) or (op != 'insert_characters' and src < cols):
+                    exp = to_z3bool(alts_equal(cell_alts(L, pre, y, src), post_alts))
+            elif op == 'insert_characters':
                 # post[x] = pre[x-k] if x-k >= cx
                 for k in range(1, x - cx + 1):
                     exp = z3.If(cnt == k, to_z3bool(alts_equal(cell_alts(L, pre, y, x - k), post_alts)), exp)
@@ -47,8 +56,21 @@ def frame(L, pre, post):
 def path_single(ctx, job, box):
     cols, lines = job.params['geom']
     op = job.params['op']
-    run = GridRun(ctx, box, cols, lines, cursor='pick', tabstops=1)
+    opts = remote_opts(cols, lines) if job.params.get('remote') else {'cursor': 'pick'}
+    if job.params.get('remote'):
+        # around the cursor too, so that something is there to be shifted
+        opts['buffer'] = ('sparse', opts['buffer'][1] + [(y, x) for (x, y) in opts['cursor'][1] if x < cols][:8])
+    run = GridRun(ctx, box, cols, lines, tabstops=1, **opts)
     n = sym_opt_u32(ctx, 'a')
+    if cols > 40:
+        # a very wide row: the count is one of a few values around the interesting boundaries (still chosen
+        # by the solver, one path each), which keeps the per-cell oracle small
+        is_some, nn = opt_parts(n)
+        ctx.assume(z3.Or([nn.v == v for v in (0, 1, 2, 255, 256, 257, cols - 1, cols, cols + 1, 9999)]))
+        if ctx.branch(to_z3bool(is_some)):
+            n = some(Int('u32', ctx.concretize(nn.v)))
+        else:
+            n = NONE
     run.call(op, n)
     if run.outcome == 'panic':
         return run.panic_check()
@@ -127,6 +149,9 @@ def jobs(tier):
     for g in gs:
         for op in ('insert_characters', 'delete_characters'):
             js.append(Job('single/%s/%dx%d' % (op, g[0], g[1]), path_single, op=op, geom=g, prop=PROP))
+    for g in ([(9, 2)] if tier == 'quick' else [(9, 2), (17, 3), (258, 2)]):
+        for op in ('insert_characters', 'delete_characters'):
+            js.append(Job('remote/%s/%dx%d' % (op, g[0], g[1]), path_single, op=op, geom=g, remote=True, prop=PROP))
     sg = [(2, 1), (3, 1)] if tier == 'quick' else [(2, 1), (3, 1), (4, 1), (3, 2)]
     for g in sg:
         for f in FIRST:
@@ -147,5 +172,6 @@ META = {
     'bounds': 'rows of 1..3 (thorough 5) columns, every cell present/absent with distinct markers and symbolic '
               'renditions, cursor at every column incl. pending-wrap, counts absent or 0..=9999; sequences of one '
               '(thorough two) first edits from {ICH, DCH, EL, ECH, draw, IRM-draw, resize of the width} followed by ICH/DCH on the same row',
-    'outside': 'wider rows; sequences longer than 2 (thorough 3) edits',
+    'outside': 'wider rows other than the sparsely written remote ones (quick 9x2; thorough + 17x3, 258x2); sequences '
+               'longer than 2 (thorough 3) edits',
 }
